@@ -659,6 +659,300 @@ def gen_proxy():
     emit("ProxyGen.v", "\n".join(out) + "\n")
 
 
+# ---- second ProxyFuture kernel file: the code around the dunder table (Model/Proxy2.v, Props/C17_more.v) -------------
+def _coq_str(x):
+    if '"' in x or "\\" in x or "\n" in x:
+        raise Unsupported("string literal %r" % x)
+    return '"%s"' % x
+
+
+def _texpr(e, env=None):
+    """the expression f_proxy hands to ProxyFuture as `timeout` -> texpr (Base/ProxyPrelude.v)"""
+    if isinstance(e, ast.Constant) and e.value is None:
+        return "TENone"
+    if isinstance(e, ast.Constant) and type(e.value) is int:
+        return "(TEInt (%d)%%Z)" % e.value
+    if isinstance(e, ast.Constant) and type(e.value) is float and e.value == int(e.value):
+        return "(TEInt (%d)%%Z)" % int(e.value)
+    if isinstance(e, ast.Name) and e.id == "MAX_TIMEOUT":
+        return "TEMax"
+    if isinstance(e, ast.Name) and env is not None and e.id in env:
+        return env[e.id]
+    if isinstance(e, ast.Call) and isinstance(e.func, ast.Attribute) and ast.unparse(e.func.value) == "kwargs" \
+            and e.func.attr in ("pop", "get") and not e.keywords and 1 <= len(e.args) <= 2 \
+            and isinstance(e.args[0], ast.Constant) and isinstance(e.args[0].value, str):
+        if len(e.args) == 1 and e.func.attr == "pop":
+            raise Unsupported("kwargs.pop without default raises KeyError")
+        d = _texpr(e.args[1], env) if len(e.args) == 2 else "TENone"
+        return "(TEKw %s %s %s)" % ("true" if e.func.attr == "pop" else "false", _coq_str(e.args[0].value), d)
+    if isinstance(e, ast.BoolOp) and isinstance(e.op, ast.Or):
+        out = _texpr(e.values[-1], env)
+        for v in reversed(e.values[:-1]):
+            out = "(TEOr %s %s)" % (_texpr(v, env), out)
+        return out
+    if isinstance(e, ast.IfExp):
+        t = e.test
+        if isinstance(t, ast.Compare) and len(t.ops) == 1 and isinstance(t.comparators[0], ast.Constant) and t.comparators[0].value is None:
+            if isinstance(t.ops[0], ast.Is):
+                return "(TEIfIsNone %s %s %s)" % (_texpr(t.left, env), _texpr(e.body, env), _texpr(e.orelse, env))
+            if isinstance(t.ops[0], ast.IsNot):
+                return "(TEIfIsNotNone %s %s %s)" % (_texpr(t.left, env), _texpr(e.body, env), _texpr(e.orelse, env))
+        return "(TEIfTruth %s %s %s)" % (_texpr(t, env), _texpr(e.body, env), _texpr(e.orelse, env))
+    raise Unsupported("timeout expression %s" % ast.unparse(e))
+
+
+def _bexp(e, params):
+    """a ProxyFuture method body expression -> bexp"""
+    u = ast.unparse(e)
+    if u == "self.__result":
+        return "BResult"
+    if isinstance(e, ast.Name) and e.id in params:
+        return "(BArg %s)" % _coq_str(e.id)
+    if isinstance(e, ast.Constant) and e.value is True:
+        return "BTrue"
+    if isinstance(e, ast.Constant) and e.value is False:
+        return "BFalse"
+    if isinstance(e, ast.BinOp) and type(e.op) in PROXY_BINOPS:
+        return "(BBin %s %s %s)" % (PROXY_BINOPS[type(e.op)], _bexp(e.left, params), _bexp(e.right, params))
+    if isinstance(e, ast.UnaryOp) and type(e.op) in PROXY_UNOPS:
+        return "(BUn %s %s)" % (PROXY_UNOPS[type(e.op)], _bexp(e.operand, params))
+    if isinstance(e, ast.Subscript):
+        return "(BGetItem %s %s)" % (_bexp(e.value, params), _bexp(e.slice, params))
+    if isinstance(e, ast.Compare) and len(e.ops) == 1 and isinstance(e.ops[0], ast.In):
+        return "(BContains %s %s)" % (_bexp(e.left, params), _bexp(e.comparators[0], params))
+    if isinstance(e, ast.Call) and not e.keywords:
+        def arg(a):
+            if isinstance(a, ast.Starred):
+                if isinstance(a.value, ast.Name) and a.value.id in params:
+                    return "(BStar %s)" % _coq_str(a.value.id)
+                raise Unsupported("starred argument %s" % ast.unparse(a))
+            return _bexp(a, params)
+        args = "[" + "; ".join(arg(a) for a in e.args) + "]"
+        f = e.func
+        if isinstance(f, ast.Name) and f.id not in params:
+            return "(BCall %s %s)" % (_coq_str(f.id), args)
+        if isinstance(f, ast.Attribute) and isinstance(f.value, ast.Name) and f.value.id == "math":
+            return "(BCall %s %s)" % (_coq_str("math." + f.attr), args)
+        if isinstance(f, ast.Attribute) and isinstance(f.value, ast.Name) and f.value.id == "self":
+            if e.args:
+                raise Unsupported("self method call with arguments: %s" % u)
+            return "(BSelfMethod %s)" % _coq_str(f.attr)
+        if isinstance(f, ast.Attribute):
+            return "(BMethod %s %s %s)" % (_bexp(f.value, params), _coq_str(f.attr), args)
+    raise Unsupported("proxy body expression %s" % u)
+
+
+def _mangle(cls, name):
+    return "_%s%s" % (cls.lstrip("_"), name) if name.startswith("__") and not name.endswith("__") else name
+
+
+def _class_names(tree, cname):
+    """(names bound in the class body, names assigned on self in its methods), private names mangled"""
+    cls = [n for n in tree.body if isinstance(n, ast.ClassDef) and n.name == cname]
+    if not cls:
+        raise Unsupported("class %s" % cname)
+    cattrs, iattrs = [], []
+    for m in cls[0].body:
+        if isinstance(m, ast.FunctionDef):
+            cattrs.append(_mangle(cname, m.name))
+            for n in ast.walk(m):
+                if isinstance(n, (ast.Assign, ast.AugAssign, ast.AnnAssign)):
+                    for t in (n.targets if isinstance(n, ast.Assign) else [n.target]):
+                        if isinstance(t, ast.Attribute) and isinstance(t.value, ast.Name) and t.value.id == "self":
+                            a = _mangle(cname, t.attr)
+                            if a not in iattrs:
+                                iattrs.append(a)
+        elif isinstance(m, ast.Assign):
+            for t in m.targets:
+                if isinstance(t, ast.Name):
+                    cattrs.append(_mangle(cname, t.id))
+        elif isinstance(m, (ast.Expr, ast.Pass)):
+            continue
+        else:
+            raise Unsupported("class %s: member %s" % (cname, type(m).__name__))
+    return cattrs, iattrs
+
+
+def gen_proxy2():
+    tree = parse("futures/proxy.py")
+    out = [HEADER % "more_executors/_impl/futures/proxy.py, nocancel.py, map.py, common.py (the code around the dunder table)"]
+    out.append("From Coq Require Import String.\nFrom ME Require Import Base.ProxyPrelude.\nOpen Scope string_scope.")
+    # 1. f_proxy: the timeout handed to ProxyFuture
+    g = find(tree, None, "f_proxy")
+    body = strip_doc(g.body)
+    if not body or not isinstance(body[-1], ast.Return):
+        raise Unsupported("f_proxy body")
+    if sum(1 for n in ast.walk(g) if isinstance(n, ast.Call) and ast.unparse(n.func) in ("kwargs.pop", "kwargs.get", "kwargs.setdefault")) > 1:
+        raise Unsupported("f_proxy: kwargs read more than once")
+    env = {}
+    for st in body[:-1]:
+        # local assignments before the return: `x = e` and `if <test on a local>: x = e`, kept as expressions over kwargs
+        if isinstance(st, ast.Assign) and len(st.targets) == 1 and isinstance(st.targets[0], ast.Name):
+            env[st.targets[0].id] = _texpr(st.value, env)
+        elif isinstance(st, ast.If) and not st.orelse and len(st.body) == 1 and isinstance(st.body[0], ast.Assign) \
+                and len(st.body[0].targets) == 1 and isinstance(st.body[0].targets[0], ast.Name):
+            x = st.body[0].targets[0].id
+            cur = env.get(x)
+            if cur is None:
+                raise Unsupported("f_proxy: conditional assignment to an unbound local")
+            t = st.test
+            val = _texpr(st.body[0].value, env)
+            if isinstance(t, ast.Compare) and len(t.ops) == 1 and isinstance(t.comparators[0], ast.Constant) and t.comparators[0].value is None \
+                    and isinstance(t.ops[0], (ast.Is, ast.IsNot)):
+                env[x] = "(%s %s %s %s)" % ("TEIfIsNone" if isinstance(t.ops[0], ast.Is) else "TEIfIsNotNone", _texpr(t.left, env), val, cur)
+            elif isinstance(t, ast.UnaryOp) and isinstance(t.op, ast.Not):
+                env[x] = "(TEIfTruth %s %s %s)" % (_texpr(t.operand, env), cur, val)
+            else:
+                env[x] = "(TEIfTruth %s %s %s)" % (_texpr(t, env), val, cur)
+        else:
+            raise Unsupported("f_proxy statement: %s" % ast.unparse(st))
+    c = body[-1].value
+    if not (isinstance(c, ast.Call) and ast.unparse(c.func) == "track_future" and len(c.args) == 1
+            and [(k.arg, ast.unparse(k.value)) for k in c.keywords] == [("type", "'proxy'")]):
+        raise Unsupported("f_proxy: track_future call")
+    pc = c.args[0]
+    if not (isinstance(pc, ast.Call) and ast.unparse(pc.func) == "ProxyFuture" and [ast.unparse(a) for a in pc.args] == ["f"]
+            and [k.arg for k in pc.keywords] == ["timeout"]):
+        raise Unsupported("f_proxy: ProxyFuture construction")
+    if [a.arg for a in g.args.args] != ["f"] or g.args.vararg or not g.args.kwarg or g.args.kwarg.arg != "kwargs" or g.args.kwonlyargs:
+        raise Unsupported("f_proxy signature")
+    out.append("Definition proxy_timeout_expr : texpr := %s." % _texpr(pc.keywords[0].value, env))
+    # 2. __init__ keeps it, __result passes it to self.result
+    ini = find(tree, "ProxyFuture", "__init__")
+    if [a.arg for a in ini.args.args] != ["self", "delegate", "timeout"] or \
+            [ast.unparse(s) for s in strip_doc(ini.body)] != [N("self.__timeout = timeout"), N("super(ProxyFuture, self).__init__(delegate)")]:
+        raise Unsupported("ProxyFuture.__init__")
+    out.append("Definition proxy_init_stores_timeout : bool := true.")
+    res = find(tree, "ProxyFuture", "__result")
+    if [ast.unparse(d) for d in res.decorator_list] != ["property"] or len(strip_doc(res.body)) != 1:
+        raise Unsupported("ProxyFuture.__result")
+    r = strip_doc(res.body)[0]
+    if not (isinstance(r, ast.Return) and isinstance(r.value, ast.Call) and ast.unparse(r.value.func) == "self.result" and not r.value.keywords):
+        raise Unsupported("ProxyFuture.__result body")
+    ra = r.value.args
+    if len(ra) == 0:
+        out.append("Definition proxy_result_timeout : tsource := TSNoTimeout.")
+    elif len(ra) == 1 and ast.unparse(ra[0]) == "self.__timeout":
+        out.append("Definition proxy_result_timeout : tsource := TSConfigured.")
+    elif len(ra) == 1 and isinstance(ra[0], ast.Constant) and type(ra[0].value) is int:
+        out.append("Definition proxy_result_timeout : tsource := TSConst (%d)%%Z." % ra[0].value)
+    else:
+        raise Unsupported("ProxyFuture.__result timeout argument")
+    # 3. every other method, translated expression by expression
+    cls = [n for n in tree.body if isinstance(n, ast.ClassDef) and n.name == "ProxyFuture"][0]
+    if [ast.unparse(b) for b in cls.bases] != ["MapFuture"]:
+        raise Unsupported("ProxyFuture bases")
+    meths = []
+    for m in cls.body:
+        if not isinstance(m, ast.FunctionDef) or m.name in ("__init__", "__result", "__getattr__"):
+            continue
+        if m.decorator_list or m.args.kwarg or m.args.kwonlyargs or m.args.defaults or not m.args.args or m.args.args[0].arg != "self":
+            raise Unsupported("proxy method %s: signature" % m.name)
+        params = [(a.arg, False) for a in m.args.args[1:]] + ([(m.args.vararg.arg, True)] if m.args.vararg else [])
+        names = [p[0] for p in params]
+        b = strip_doc(m.body)
+        if len(b) != 1:
+            raise Unsupported("proxy method %s: body" % m.name)
+        s = b[0]
+        if isinstance(s, ast.Return) and s.value is not None:
+            term = _bexp(s.value, names)
+        elif isinstance(s, ast.Assign) and len(s.targets) == 1 and isinstance(s.targets[0], ast.Subscript):
+            term = "(BSetItem %s %s %s)" % (_bexp(s.targets[0].value, names), _bexp(s.targets[0].slice, names), _bexp(s.value, names))
+        elif isinstance(s, ast.Delete) and len(s.targets) == 1 and isinstance(s.targets[0], ast.Subscript):
+            term = "(BDelItem %s %s)" % (_bexp(s.targets[0].value, names), _bexp(s.targets[0].slice, names))
+        else:
+            raise Unsupported("proxy method %s: statement" % m.name)
+        meths.append("(%s, [%s], %s)" % (_coq_str(m.name), "; ".join("(%s, %s)" % (_coq_str(n), "true" if st else "false") for n, st in params), term))
+    out.append("Definition proxy_bodies : list pmethod :=\n  [ " + ";\n    ".join(meths) + " ].")
+    # 4. __getattr__
+    ga = find(tree, "ProxyFuture", "__getattr__")
+    if [a.arg for a in ga.args.args] != ["self", "name"] or ga.args.vararg or ga.args.kwarg or ga.decorator_list:
+        raise Unsupported("__getattr__ signature")
+    gs = []
+    for s in strip_doc(ga.body):
+        u = ast.unparse(s)
+        if isinstance(s, ast.If) and not s.orelse and len(s.body) == 1 and isinstance(s.test, ast.Compare) and len(s.test.ops) == 1 \
+                and isinstance(s.test.ops[0], ast.Eq) and ast.unparse(s.test.left) == "name" and isinstance(s.test.comparators[0], ast.Constant) \
+                and isinstance(s.test.comparators[0].value, str) and ast.unparse(s.body[0]) == N("raise self.exception()"):
+            gs.append("GIfEqRaiseOwnException %s" % _coq_str(s.test.comparators[0].value))
+        elif isinstance(s, ast.If) and not s.orelse and len(s.body) == 1 and isinstance(s.test, ast.Call) \
+                and ast.unparse(s.test.func) == "name.startswith" and len(s.test.args) == 1 and not s.test.keywords \
+                and isinstance(s.test.args[0], ast.Constant) and isinstance(s.test.args[0].value, str) \
+                and ast.unparse(s.body[0]) in (N("raise AttributeError()"), N("raise AttributeError")):
+            gs.append("GIfPrefixRaiseAttributeError %s" % _coq_str(s.test.args[0].value))
+        elif u == N("return getattr(self.__result, name)"):
+            gs.append("GReturnGetattrResult")
+        else:
+            raise Unsupported("__getattr__ statement: %s" % u)
+    out.append("Definition proxy_getattr_body : list gstmt :=\n  [ " + ";\n    ".join(gs) + " ].")
+    # 5. what the classes themselves define (found before __getattr__ is consulted); private names mangled
+    cattrs, iattrs = [], []
+    for rel, cname in (("futures/proxy.py", "ProxyFuture"), ("map.py", "MapFuture"), ("common.py", "_Future")):
+        ca, ia = _class_names(parse(rel), cname)
+        for a in ca:
+            if a not in cattrs:
+                cattrs.append(a)
+        for a in ia:
+            if a not in iattrs:
+                iattrs.append(a)
+    tm = parse("map.py")
+    mcls = [n for n in tm.body if isinstance(n, ast.ClassDef) and n.name == "MapFuture"][0]
+    tc = parse("common.py")
+    fcls = [n for n in tc.body if isinstance(n, ast.ClassDef) and n.name == "_Future"][0]
+    if [ast.unparse(b) for b in mcls.bases] != ["_Future"] or [ast.unparse(b) for b in fcls.bases] != ["Future"]:
+        raise Unsupported("MapFuture / _Future bases")
+    out.append("Definition proxy_class_attrs : list string :=\n  [ " + "; ".join(_coq_str(a) for a in cattrs) + " ].")
+    out.append("Definition proxy_instance_attrs : list string :=\n  [ " + "; ".join(_coq_str(a) for a in iattrs) + " ].")
+    # 6. NoCancelFuture / f_nocancel
+    tn = parse("futures/nocancel.py")
+    ncls = [n for n in tn.body if isinstance(n, ast.ClassDef) and n.name == "NoCancelFuture"]
+    if not ncls or [ast.unparse(b) for b in ncls[0].bases] != ["MapFuture"]:
+        raise Unsupported("NoCancelFuture bases")
+    over = [m.name for m in ncls[0].body if isinstance(m, ast.FunctionDef)]
+    if [m for m in ncls[0].body if not isinstance(m, (ast.FunctionDef, ast.Expr, ast.Pass))]:
+        raise Unsupported("NoCancelFuture members")
+    out.append("Definition nocancel_overrides : list string := [ " + "; ".join(_coq_str(a) for a in over) + " ].")
+    if "cancel" in over:
+        c = find(tn, "NoCancelFuture", "cancel")
+        if [a.arg for a in c.args.args] != ["self"] or c.args.vararg or c.args.kwarg or c.decorator_list:
+            raise Unsupported("NoCancelFuture.cancel signature")
+        b = [ast.unparse(x) for x in strip_doc(c.body)]
+        if b == [N("return False")]:
+            out.append("Definition nocancel_cancel_body : ncbody := NCReturnConst false.")
+        elif b == [N("return True")]:
+            out.append("Definition nocancel_cancel_body : ncbody := NCReturnConst true.")
+        elif b in ([N("return super().cancel()")], [N("return super(NoCancelFuture, self).cancel()")]):
+            out.append("Definition nocancel_cancel_body : ncbody := NCSuper.")
+        else:
+            raise Unsupported("NoCancelFuture.cancel body")
+    else:
+        out.append("Definition nocancel_cancel_body : ncbody := NCSuper.")
+    g = find(tn, None, "f_nocancel")
+    last = strip_doc(g.body)
+    if len(last) != 1 or not isinstance(last[0], ast.Return):
+        raise Unsupported("f_nocancel body")
+    c = last[0].value
+    if not (isinstance(c, ast.Call) and ast.unparse(c.func) == "track_future" and len(c.args) == 1 and isinstance(c.args[0], ast.Call)
+            and ast.unparse(c.args[0].func) == "NoCancelFuture" and not c.args[0].keywords and 1 <= len(c.args[0].args) <= 3
+            and ast.unparse(c.args[0].args[0]) == "future"):
+        raise Unsupported("f_nocancel construction")
+
+    def fn_kind(a):
+        if isinstance(a, ast.Constant) and a.value is None:
+            return "NFAbsent"
+        if isinstance(a, ast.Lambda) and len(a.args.args) == 1 and not a.args.vararg and not a.args.kwarg and not a.args.defaults \
+                and isinstance(a.body, ast.Name) and a.body.id == a.args.args[0].arg:
+            return "NFIdentity"
+        if isinstance(a, ast.Name) and a.id == "identity":
+            return "NFIdentity"
+        return "NFOther"
+    na = c.args[0].args
+    out.append("Definition nocancel_map_fn : nfn := %s." % (fn_kind(na[1]) if len(na) > 1 else "NFAbsent"))
+    out.append("Definition nocancel_error_fn : nfn := %s." % (fn_kind(na[2]) if len(na) > 2 else "NFAbsent"))
+    emit("Proxy2Gen.v", "\n".join(out) + "\n")
+
+
+
 def gen_bind():
     out = [HEADER % "more_executors/_impl/executors.py, wrap.py, bind.py"]
     tree = parse("executors.py")
@@ -777,7 +1071,7 @@ def _gen_src(mod):
 
 
 KERNELS = [(_gen_src(m), "Src_%s.v" % m) for m in srcfacts.MODULES] + [(gen_retry, "RetryGen.v"), (gen_timeout, "TimeoutGen.v"), (gen_bool, "BoolGen.v"), (gen_zip, "ZipGen.v"),
-           (gen_throttle, "ThrottleGen.v"), (gen_proxy, "ProxyGen.v"), (gen_bind, "BindGen.v"), (gen_apply, "ApplyGen.v")]
+           (gen_throttle, "ThrottleGen.v"), (gen_proxy, "ProxyGen.v"), (gen_proxy2, "Proxy2Gen.v"), (gen_bind, "BindGen.v"), (gen_apply, "ApplyGen.v")]
 
 
 import skel2coq      # noqa: E402
@@ -814,6 +1108,20 @@ def gen_loop_skel():
 
 
 KERNELS.append((gen_loop_skel, "LoopSkel.v"))
+
+import comb2coq      # noqa: E402
+
+
+def gen_comb_skel():
+    """the concurrent programs of f_or / f_and / f_zip (IR of Model/CombIR.v), see tools/comb2coq.py"""
+    try:
+        comb2coq.generate()
+    except comb2coq.Unsupported as e:
+        raise Unsupported(str(e))
+
+
+KERNELS.append((gen_comb_skel, "CombSkel.v"))
+
 
 
 
